@@ -53,6 +53,7 @@ class Contract:
     result_fields: dict = field(default_factory=dict)
     cancel_at_yield: bool = False             # explore CancelledError at every await of this function
     inline: bool = False
+    fresh: dict = field(default_factory=dict)      # name -> (type string, witness expr): values created by the function
 
 
 @dataclass
@@ -76,6 +77,7 @@ class SpecDB:
         self.axioms: list = []                   # (name, [ (var,type) ], expr) assumed facts about ufuns
         self.extern_classes: dict[str, dict] = {}  # external class -> {'bases': [...]}
         self.findings: list = []
+        self.symbolic_classes: set = set()       # classes whose instances are immutable symbolic-identity objects
         self.meta: dict[str, dict] = {}          # property -> {'not_decided': [...], 'assumptions': [...], 'bounded': [...]}
 
     def contract(self, **kw) -> Contract:
